@@ -170,6 +170,17 @@ def body_text(body, ind, ctxkind):
         elif k == "if":
             out.append(f"{pad}if _symx_cond({st[1]!r}):")
             out += body_text(st[2], ind + 4, ctxkind)
+        elif k == "try":
+            out.append(f"{pad}try:")
+            out += body_text(st[1], ind + 4, ctxkind)
+            for cname, hbody in st[2]:
+                out.append(f"{pad}interrupt when _symx_cond({cname!r}):")
+                out += body_text(hbody, ind + 4, ctxkind)
+        elif k in ("abort", "break", "continue", "return"):
+            out.append(f"{pad}{k}")
+        elif k == "whilecond":
+            out.append(f"{pad}while _symx_cond({st[1]!r}):")
+            out += body_text(st[2], ind + 4, ctxkind)
         else:
             raise ValueError(st)
     if not out:
@@ -181,6 +192,12 @@ def program_text(P):
     L = []
     for name, b in P.get("behaviors", {}).items():
         L.append(f"behavior {name}():")
+        if isinstance(b, dict):
+            for c in b.get("pre", []):
+                L.append(f"    precondition: _symx_cond({c!r})")
+            for c in b.get("inv", []):
+                L.append(f"    invariant: _symx_cond({c!r})")
+            b = b["body"]
         L += body_text(b, 4, "behavior")
     if P.get("monitor") is not None:
         L.append("monitor Mon():")
@@ -232,6 +249,20 @@ class Stop(Exception):
         self.kind = kind  # 'scenario' | 'simulation'
 
 
+class FromSub(tuple):
+    """Actions yielded by a running sub-behaviour (the invoking behaviour is not itself resumed)."""
+
+
+class Control(Exception):
+    def __init__(self, kind):
+        self.kind = kind  # 'abort' | 'break' | 'continue' | 'return'
+
+
+class RefReject(Exception):
+    def __init__(self, why):
+        self.why = why
+
+
 class Ref:
     """Reference interpreter of the IR following the ten-step procedure of the reference manual.
 
@@ -251,22 +282,81 @@ class Ref:
         v = self.cell(name, self.t)
         return True if v else False
 
+    def check_inv(self, inv):
+        for c in inv:
+            if not self.cond(c):
+                raise RefReject("invariant " + c)
+
+    def run_behavior(self, name):
+        """A behaviour with its guards: preconditions and invariants when it starts, invariants whenever it
+        resumes after an action or after a sub-behaviour has finished."""
+        b = self.P["behaviors"][name]
+        if isinstance(b, dict):
+            for c in b.get("pre", []):
+                if not self.cond(c):
+                    raise RefReject("precondition " + c)
+            self.check_inv(b.get("inv", []))
+            try:
+                yield from self.run_body(b["body"], "behavior", tuple(b.get("inv", [])))
+            except Control as c:
+                if c.kind != "return":
+                    raise
+        else:
+            try:
+                yield from self.run_body(b, "behavior", ())
+            except Control as c:
+                if c.kind != "return":
+                    raise
+
     # bodies as generators: yield ('wait', actions) to end the step
-    def run_body(self, body, kind):
+    def run_body(self, body, kind, inv=()):
         for st in body:
             k = st[0]
             if k == "log":
                 self.ev(st[1])
             elif k == "wait":
                 yield ()
+                self.check_inv(inv)
             elif k == "take":
                 yield (st[1],)
+                self.check_inv(inv)
             elif k == "loop":
-                while True:
-                    yield from self.run_body(st[1], kind)
+                try:
+                    while True:
+                        try:
+                            yield from self.run_body(st[1], kind, inv)
+                        except Control as c:
+                            if c.kind != "continue":
+                                raise
+                except Control as c:
+                    if c.kind != "break":
+                        raise
+            elif k == "whilecond":
+                try:
+                    while self.cond(st[1]):
+                        try:
+                            yield from self.run_body(st[2], kind, inv)
+                        except Control as c:
+                            if c.kind != "continue":
+                                raise
+                except Control as c:
+                    if c.kind != "break":
+                        raise
             elif k == "repeat":
-                for _ in range(st[1]):
-                    yield from self.run_body(st[2], kind)
+                try:
+                    for _ in range(st[1]):
+                        try:
+                            yield from self.run_body(st[2], kind, inv)
+                        except Control as c:
+                            if c.kind != "continue":
+                                raise
+                except Control as c:
+                    if c.kind != "break":
+                        raise
+            elif k in ("abort", "break", "continue", "return"):
+                raise Control(k)
+            elif k == "try":
+                yield from self.run_try(st[1], st[2], kind, inv)
             elif k == "terminate":
                 raise Stop("scenario")
             elif k == "terminate_sim":
@@ -278,20 +368,56 @@ class Ref:
                 start = self.t
                 while not (self.t - start >= n):
                     yield ()
+                    self.check_inv(inv)
             elif k == "waituntil":
                 while not self.cond(st[1]):
                     yield ()
+                    self.check_inv(inv)
             elif k == "if":
                 if self.cond(st[1]):
-                    yield from self.run_body(st[2], kind)
+                    yield from self.run_body(st[2], kind, inv)
             elif k == "do":
                 yield from self.run_do(st[1], st[2], kind)
+                if kind == "behavior":
+                    self.check_inv(inv)  # resumed after a finished sub-behaviour
             else:
                 raise ValueError(st)
 
+    def run_try(self, body, handlers, kind, inv):
+        """try-interrupt: at every step the enabled-or-suspended handler whose clause comes latest runs;
+        otherwise the body; a finished handler returns control; `abort` ends the statement."""
+        body_it = self.run_body(body, kind, inv)
+        its = [None] * len(handlers)
+        while True:
+            block = None
+            for i in reversed(range(len(handlers))):
+                if its[i] is not None or self.cond(handlers[i][0]):
+                    block = i
+                    break
+            if block is None:
+                it = body_it
+            else:
+                if its[block] is None:
+                    its[block] = self.run_body(handlers[block][1], kind, inv)
+                it = its[block]
+            try:
+                r = next(it)
+            except StopIteration:
+                if block is None:
+                    return
+                its[block] = None
+                continue
+            except Control as c:
+                if c.kind == "abort":
+                    return
+                raise
+            yield r
+            if not isinstance(r, FromSub):
+                self.check_inv(inv)  # the behaviour itself resumes after an action
+
     def run_do(self, name, mod, kind):
         if kind == "behavior":
-            inner = self.run_body(self.P["behaviors"][name], "behavior")
+            inner = (FromSub(r) for r in self.run_behavior(name))
             sub = None
         else:
             sub = SubScenario(self, name)
@@ -321,7 +447,9 @@ class Ref:
     def simulate(self):
         P = self.P
         agents = [a for a, b in P["agents"] if b]
-        beh = {a: self.run_body(P["behaviors"][b], "behavior") for a, b in P["agents"] if b}
+        beh = {a: self.run_behavior(b) for a, b in P["agents"] if b}
+        for a in agents:  # behaviours of the initial agents start (guards checked) when the scenario starts
+            pass
         finished = set()
         mon = self.run_body(P["monitor"], "monitor") if P.get("monitor") is not None else None
         comp = self.run_body(P["compose"], "compose") if P.get("compose") is not None else None
